@@ -35,6 +35,7 @@ use wf_harness::{
     airfam::*,
     catch,
     coinrec::{take_log, RecordingCoin},
+    lagfam::{take_uses, LagAir, LagProver, LagTrace},
     hex_bytes, jstr,
     prng::Rng,
     silence_panics,
@@ -110,15 +111,16 @@ where B: StarkField, H: ElementHasher<BaseField = B>, E: FieldElement<BaseField 
     let (cur, nxt) = (frame.current_row(), frame.next_row());
     let mut v: Vec<E> = Vec::with_capacity(2 * cur.len());
     for i in 0..cur.len() { v.push(cur[i]); v.push(nxt[i]); }
+    if let Some(l) = frame.lagrange_kernel_frame() { v.extend_from_slice(l.inner()); }
     Ok((hex_bytes(&H::hash_elements(&v).to_bytes()), hex_bytes(&H::hash_elements(&evals).to_bytes())))
 }
 
-fn known_of<B, H>(proof: &Proof, pi: &PubInputs<B>, nseg: usize, layers: usize, cc: usize) -> Result<Known, String>
+fn known_of<B, H>(proof: &Proof, pub_elems: &[B], nseg: usize, layers: usize, cc: usize) -> Result<Known, String>
 where B: StarkField + ExtensibleField<2> + ExtensibleField<3>, H: ElementHasher<BaseField = B> {
     let ti = proof.context.trace_info();
     let (main, aux) = (ti.main_trace_width(), ti.aux_segment_width());
     let mut seed: Vec<B> = proof.context.to_elements();
-    seed.extend(pi.to_elements());
+    seed.extend(pub_elems.iter().copied());
     let (troots, croot, froots) = proof.commitments.clone().parse::<H>(nseg, layers).map_err(|e| format!("commitments-parse:{}", e))?;
     let (ot, oe) = match proof.options().field_extension() {
         FieldExtension::None => ood_hashes::<B, H, B>(proof, main, aux, cc)?,
@@ -145,7 +147,7 @@ where B: StarkField + ExtensibleField<2> + ExtensibleField<3>, H: ElementHasher<
 
 /// Abstraction of a raw log to the model's alphabet.  Nothing here consults the model: components are identified by
 /// their bytes, draws are numbered by counting, the grinding search is recognised by its own shape.
-fn abstract_log(ops: &[Op], k: &Known, prover_side: bool) -> Vec<String> {
+fn abstract_log(ops: &[Op], k: &Known, prover_side: bool, tags: &std::collections::HashMap<String, char>) -> Vec<String> {
     let mut out = vec![];
     let mut used = vec![false; k.comps.len()];
     let mut ctr = 0usize;
@@ -161,7 +163,11 @@ fn abstract_log(ops: &[Op], k: &Known, prover_side: bool) -> Vec<String> {
                 out.push(tok);
                 ctr = 0;
             }
-            Op::Draw { deg, res } => { out.push(if res == "err" { "D:err".to_string() } else { format!("D{}.{}", ctr, deg) }); ctr += 1; }
+            Op::Draw { deg, res } => {
+                let tag = tags.get(res).map(|c| format!("@{}", c)).unwrap_or_default();
+                out.push(if res == "err" { "D:err".to_string() } else { format!("D{}.{}{}", ctr, deg, tag) });
+                ctr += 1;
+            }
             Op::Lz { .. } => {
                 // maximal run of consecutive probes
                 let mut j = i;
@@ -312,7 +318,6 @@ fn entropy_ok(n: usize, dom: usize, weak_hash: bool) -> bool { !weak_hash && (n 
 fn process<B, H>(tag: &str, spec: &Spec, opts: &ProofOptions, falsify: bool, out: &mut Out)
 where B: StarkField + ExtensibleField<2> + ExtensibleField<3> + 'static, H: ElementHasher<BaseField = B> + Send + Sync {
     type RC<H> = RecordingCoin<DefaultRandomCoin<H>>;
-    let weak = tag.contains("/toy/");
     let desc = format!("{} w={} n={} degs={:?} per={:?} ex={} asrt={:?} aux={}/{} seed={} opts={:?}", tag, spec.width, spec.n(), spec.degs, spec.periodic,
         spec.exemptions, spec.assertions, spec.aux_width, spec.aux_rands, spec.seed, opts);
     let cols = gen_main::<B>(spec);
@@ -322,34 +327,90 @@ where B: StarkField + ExtensibleField<2> + ExtensibleField<3> + 'static, H: Elem
     let _ = take_log();
     let res = catch(AssertUnwindSafe(|| prover.prove(trace)));
     let plog = take_log();
+    let counts = (spec.assertions.len(), if spec.aux_width > 0 { spec.aux_width + spec.aux_assert_last as usize } else { 0 });
+    core::<B, H, FamAir<B>, _>(tag, &desc, res, plog, vec![], pi, counts, opts, falsify, out);
+}
+
+/// The Lagrange-kernel family (harness/src/lagfam.rs): one main column, `aw` auxiliary columns (last = Lagrange kernel),
+/// `nr` ordinary auxiliary random elements, log2(n) GKR draws.
+fn process_lag<B, H>(tag: &str, log_n: u32, aw: usize, nr: usize, opts: &ProofOptions, falsify: bool, out: &mut Out)
+where B: StarkField + ExtensibleField<2> + ExtensibleField<3> + 'static, H: ElementHasher<BaseField = B> + Send + Sync {
+    type RC<H> = RecordingCoin<DefaultRandomCoin<H>>;
+    let desc = format!("{} lagrange-kernel family n=2^{} aux_width={} aux_rands={} opts={:?}", tag, log_n, aw, nr, opts);
+    let trace = match catch(move || LagTrace::<B>::new(log_n, aw, nr)) { Ok(t) => t, Err(_) => { out.skipped.push("lag-inadmissible".into()); return; } };
+    let prover = LagProver::<B, H, RC<H>>::new(opts.clone(), aw);
+    let _ = take_log();
+    let _ = take_uses();
+    let res = catch(AssertUnwindSafe(|| prover.prove(trace)));
+    let plog = take_log();
+    let puses = take_uses();
+    core::<B, H, LagAir<B>, _>(tag, &desc, res, plog, puses, (), (1, 1), opts, falsify, out);
+}
+
+fn use_map(uses: &[String]) -> (std::collections::HashMap<String, char>, Vec<String>, Vec<String>) {
+    let mut m = std::collections::HashMap::new();
+    let (mut g, mut a) = (vec![], vec![]);
+    for u in uses {
+        let (kind, vals) = u.split_once(' ').unwrap_or((u.as_str(), ""));
+        let c = if kind == "gkr" { 'G' } else { 'A' };
+        if !(if c == 'G' { &g } else { &a }).contains(&vals.to_string()) { if c == 'G' { g.push(vals.to_string()) } else { a.push(vals.to_string()) } }
+        for v in vals.split(',').filter(|x| !x.is_empty()) { m.insert(v.to_string(), c); }
+    }
+    (m, g, a)
+}
+
+fn core<B, H, A, Er: std::fmt::Display>(tag: &str, desc: &str, res: Result<Result<Proof, Er>, String>, plog: Vec<String>, puses: Vec<String>, pi: A::PublicInputs,
+    counts: (usize, usize), opts: &ProofOptions, falsify: bool, out: &mut Out)
+where B: StarkField + ExtensibleField<2> + ExtensibleField<3> + 'static, H: ElementHasher<BaseField = B> + Send + Sync,
+      A: Air<BaseField = B>, A::PublicInputs: Clone + ToElements<B> {
+    type RC<H> = RecordingCoin<DefaultRandomCoin<H>>;
+    let weak = tag.contains("/toy/");
+    let desc = desc.to_string();
     let proof = match res { Ok(Ok(p)) => p, Ok(Err(e)) => { out.skipped.push(format!("prove-err:{}", e)); return; } Err(m) => { out.skipped.push(format!("prove-panic:{}", m)); return; } };
     // (ii) is about the SERIALIZED proof: go through bytes when the codec round-trips (C12/C13 own the codec)
     let proof = Proof::from_bytes(&proof.to_bytes()).unwrap_or(proof);
     let acc = AcceptableOptions::OptionSet(vec![opts.clone()]);
     let _ = take_log();
-    let vres = catch(AssertUnwindSafe(|| verify::<FamAir<B>, H, RC<H>>(proof.clone(), pi.clone(), &acc)));
+    let _ = take_uses();
+    let vres = catch(AssertUnwindSafe(|| verify::<A, H, RC<H>>(proof.clone(), pi.clone(), &acc)));
     let vlog = take_log();
+    let vuses = take_uses();
     let rejected: Option<String> = match &vres { Ok(Ok(())) => None, Ok(Err(e)) => Some(format!("honest-proof-rejected:{}", e)), Err(m) => Some(format!("verify-panic:{}", m)) };
 
     // the shape, read from the AIR / options exactly like the two sides do
-    let air = FamAir::<B>::new(proof.context.trace_info().clone(), pi.clone(), opts.clone());
+    let air = A::new(proof.context.trace_info().clone(), pi.clone(), opts.clone());
     let ti = proof.context.trace_info();
     let nseg = ti.num_segments();
     let lde = ti.length() * opts.blowup_factor();
     let layers = opts.to_fri_options().num_fri_layers(lde);
     let cc = air.context().num_constraint_composition_columns();
-    let (am, aa) = (spec.assertions.len(), if spec.aux_width > 0 { spec.aux_width + spec.aux_assert_last as usize } else { 0 });
+    let (am, aa) = counts;
     if am + aa != air.context().num_assertions() { out.skipped.push("assertion-count-mismatch".into()); return; }
     let ext = match opts.field_extension() { FieldExtension::None => 1, FieldExtension::Quadratic => 2, FieldExtension::Cubic => 3 };
     let shape = format!("{} {} {} {} {} {} {} {} {} {} {} {}", ti.main_trace_width(), ti.aux_segment_width(), ti.get_num_aux_segment_rand_elements(),
         air.context().num_main_transition_constraints(), air.context().num_aux_transition_constraints(), am, aa, cc, ext, layers,
         opts.grinding_factor(), opts.num_queries());
+    // Lagrange-kernel column: number of GKR draws (what the family's GKR step draws: log2 n) and log2 of the trace length
+    let lag = air.context().has_lagrange_kernel_aux_column();
+    let shape = if lag { format!("{} 1 {} {}", shape, ti.length().ilog2(), ti.length().ilog2()) } else { format!("{} 0 0 0", shape) };
+    let pub_elems: Vec<B> = pi.to_elements();
+    let (ptags, pg, pa) = use_map(&puses);
+    let (vtags, vg, va) = use_map(&vuses);
 
-    let known = match known_of::<B, H>(&proof, &pi, nseg, layers, cc) { Ok(k) => k, Err(e) => { out.skipped.push(e); return; } };
+    let known = match known_of::<B, H>(&proof, &pub_elems, nseg, layers, cc) { Ok(k) => k, Err(e) => { out.skipped.push(e); return; } };
     let (pops, p_one) = parse_log(&plog);
     let (vops, v_one) = parse_log(&vlog);
-    let pabs = abstract_log(&pops, &known, true);
-    let vabs = abstract_log(&vops, &known, false);
+    let pabs = abstract_log(&pops, &known, true, &ptags);
+    let vabs = abstract_log(&vops, &known, false, &vtags);
+    // use oracle (model independent): the values each side USES as GKR randomness / as ordinary auxiliary randomness are the
+    // same values; judged even when the proof is rejected (a divergence of uses is a transcript divergence, and it is what
+    // makes the verifier reject)
+    if falsify && lag {
+        let (vg, va) = if rejected.is_some() { (if vg.is_empty() { pg.clone() } else { vg }, if va.is_empty() { pa.clone() } else { va }) } else { (vg, va) };
+        if pg != vg { fail(out, "values used as GKR / Lagrange randomness differ between prover and verifier", &desc, &pg.join(" | "), &vg.join(" | ")); }
+        if pa != va { fail(out, "values used as auxiliary-segment randomness differ between prover and verifier", &desc, &pa.join(" | "), &va.join(" | ")); }
+        if pg.is_empty() || vg.is_empty() { fail(out, "Lagrange family: no GKR randomness use observed", &desc, "", ""); }
+    }
 
     if let Some(why) = &rejected {
         // an honest proof that is rejected is C01's business UNLESS the two transcripts diverge: the verifier's log must
@@ -368,6 +429,8 @@ where B: StarkField + ExtensibleField<2> + ExtensibleField<3> + 'static, H: Elem
         } else {
             out.corr.push(format!("tr p {} {} => {}", tag, shape, pabs.join(" ")));
             out.corr.push(format!("chk p {} {} | {} => ok", tag, shape, pabs.join(" ")));
+            // the verifier stopped early: what it did must still be a prefix of the model's verifier
+            out.corr.push(format!("trp v {} {} | {} => prefix-ok", tag, shape, vabs.join(" ")));
         }
         return;
     }
@@ -435,7 +498,7 @@ where B: StarkField + ExtensibleField<2> + ExtensibleField<3> + 'static, H: Elem
         }
     }
     // replay of the verifier's operation sequence on a fresh coin reproduces the logged results
-    let seed_elems: Vec<B> = { let mut s: Vec<B> = proof.context.to_elements(); s.extend(pi.to_elements()); s };
+    let seed_elems: Vec<B> = { let mut s: Vec<B> = proof.context.to_elements(); s.extend(pub_elems.iter().copied()); s };
     let base = replay::<B, H>(&vops, &seed_elems, None);
     match &base {
         Some(b) => for (i, o) in vops.iter().enumerate() { if op_result(o) != b[i] { fail(out, "replay on a fresh DefaultRandomCoin disagrees with the log", &format!("{} op {}", desc, i), &op_result(o), &b[i]); break; } },
@@ -472,7 +535,7 @@ where B: StarkField + ExtensibleField<2> + ExtensibleField<3> + 'static, H: Elem
     for (name, mp) in muts {
         let mp = match mp { Some(p) => p, None => { out.sens_inconclusive += 1; continue; } };
         let _ = take_log();
-        let r = catch(AssertUnwindSafe(|| verify::<FamAir<B>, H, RC<H>>(mp, pi.clone(), &acc)));
+        let r = catch(AssertUnwindSafe(|| verify::<A, H, RC<H>>(mp, pi.clone(), &acc)));
         let (mops, _) = parse_log(&take_log());
         // (acceptance of the flipped proof is not judged here: with a constant trace every position has the same opening, so a
         //  flipped nonce can legitimately verify; binding of openings is C02/C03)
@@ -570,6 +633,35 @@ fn dispatch(i: usize, spec: &Spec, opts: &ProofOptions, falsify: bool, out: &mut
     }
 }
 
+fn gen_lag_case(r: &mut Rng, k: usize) -> Option<(u32, usize, usize, ProofOptions)> {
+    let log_n = 3 + r.below(4) as u32;
+    let aw = 2 + r.below(3) as usize; // at least one ordinary auxiliary column before the Lagrange kernel column (the family asserts aux col 0 starts at 0)
+    // 1..3 ordinary random elements (0 now and then): both the GKR draws and the ordinary draws happen
+    let nr = if k % 5 == 4 { 0 } else { 1 + r.below(3) as usize };
+    let blowup = *r.pick(&[2usize, 4, 8]);
+    let ext = *r.pick(&[FieldExtension::None, FieldExtension::Quadratic, FieldExtension::Cubic]);
+    let fold = *r.pick(&[2usize, 4, 8]);
+    let rem = *r.pick(&[0usize, 1, 3, 7]);
+    let q = 1 + r.below(8) as usize;
+    let grind = *r.pick(&[0u32, 0, 1, 3]);
+    let lde = (1usize << log_n) * blowup;
+    if !fri_wellformed(lde, blowup, fold, rem) || q >= lde { return None; }
+    catch(|| ProofOptions::new(q, blowup, grind, ext, fold, rem)).ok().map(|o| (log_n, aw, nr, o))
+}
+
+fn dispatch_lag(i: usize, k: usize, c: &(u32, usize, usize, ProofOptions), falsify: bool, out: &mut Out) {
+    let (log_n, aw, nr, opts) = (c.0, c.1, c.2, &c.3);
+    let cubic = opts.field_extension() == FieldExtension::Cubic;
+    let tag = |f: &str, h: &str| format!("{}/{}/lag{}", f, h, i);
+    match k % 5 {
+        0 => process_lag::<f64::BaseElement, ToyHasher<f64::BaseElement>>(&tag("f64", "toy"), log_n, aw, nr, opts, falsify, out),
+        1 => process_lag::<f64::BaseElement, Blake3_256<f64::BaseElement>>(&tag("f64", "blake3_256"), log_n, aw, nr, opts, falsify, out),
+        2 => if cubic { out.skipped.push("f128-cubic-unsupported".into()) } else { process_lag::<f128::BaseElement, Blake3_256<f128::BaseElement>>(&tag("f128", "blake3_256"), log_n, aw, nr, opts, falsify, out) },
+        3 => process_lag::<f64::BaseElement, Rp64_256>(&tag("f64", "rp64_256"), log_n, aw, nr, opts, falsify, out),
+        _ => if cubic { out.skipped.push("f62-cubic-unsupported".into()) } else { process_lag::<f62::BaseElement, ToyHasher<f62::BaseElement>>(&tag("f62", "toy"), log_n, aw, nr, opts, falsify, out) },
+    }
+}
+
 // ------------------------------------------------------------------------------------------------ Context::to_elements vs its model
 fn int_hex_le(b: &[u8]) -> String {
     let mut s: String = b.iter().rev().map(|x| format!("{:02x}", x)).collect();
@@ -656,6 +748,18 @@ fn main() {
     let mut done = 0usize;
     let mut i = 0usize;
     while done < n && i < 20 * n + 100 {
+        // every sixth case (after the boundary stream) is a member of the Lagrange-kernel family
+        if i >= 12 && i % 6 == 4 {
+            if let Some(c) = gen_lag_case(&mut r, i / 6) {
+                let before = out.corr.len() + out.evals;
+                dispatch_lag(i, i / 6, &c, falsify, &mut out);
+                if out.corr.len() + out.evals > before { done += 1; }
+                for l in out.corr.drain(..) { println!("{}", l); }
+                for l in out.fails.drain(..) { println!("{}", l); FAILS.with(|f| *f.borrow_mut() += 1); }
+            }
+            i += 1;
+            continue;
+        }
         let c = gen_case(&mut r, i);
         if let Some((spec, opts)) = c {
             let before = out.corr.len() + out.evals;
@@ -673,6 +777,7 @@ fn main() {
             if let Some(l) = l { println!("{}", l); }
         }
     }
+    for s in &out.skipped { if s.starts_with("honest-proof-rejected") || s.starts_with("verify-panic") { eprintln!("{}", s); } }
     let mut kinds: std::collections::BTreeMap<String, usize> = Default::default();
     for s in &out.skipped { *kinds.entry(if s.starts_with("prove-panic") { s.chars().take(110).collect() } else { s.split(' ').next().unwrap_or("").chars().take(60).collect() }).or_default() += 1; }
     eprintln!("cases={} skipped={:?} sensitivity_observed={} sensitivity_inconclusive={}", done, kinds, out.sens_observed, out.sens_inconclusive);
